@@ -1,0 +1,7 @@
+//go:build !verif
+
+package lime
+
+// verifGate marks a scheduling point for the verification harness; without the "verif" build tag
+// it does nothing.
+func verifGate(_ *channel, _ string, _ interface{}) {}
